@@ -223,7 +223,11 @@ class C13(Engine):
                 # hook H2: bytes of the written image that were last written by pass 1 - the file carries something pass 2
                 # never produced (what the statement calls contents of memory left by a previous pass)
                 fk = prog.get("fw_kind")
-                what = {"instruction": "instruction-naming-a-label-defined-later:%s" % prog["cpu"], "dw": "dw-naming-a-label-defined-later",
+                if r0.counters[-4]:
+                    # the program assembles over addresses it has already assembled (an .org that goes back): the notes and
+                    # data of pass 1 for one statement lie where pass 2 assembles another - one finding whatever the statements are
+                    fk = "rewrite"
+                what = {"rewrite": "program-assembles-over-addresses-it-already-assembled", "instruction": "instruction-naming-a-label-defined-later:%s" % prog["cpu"], "dw": "dw-naming-a-label-defined-later",
                         "ifdef": "ifdef-on-a-label-defined-later", None: "no-forward-reference:%s" % prog["cpu"]}[fk]
                 res.viol("pass1-residue:image-holds-bytes-pass-2-never-wrote:%s" % what, nbytes=stale, first="0x%x" % first,
                          src=progs.render(prog)[:700])
